@@ -276,6 +276,19 @@ def delete (layer : Nat → Nat) (m : Tree) (k : Nat) (v : Nat) : Res Tree :=
         | some r =>
             .ok (shrinkLoop (m.height + 1) { m with root := r, rootP := false, dirty := true, size := m.size - 1 })
 
+/-- `Delete` whose height reduction stopped after `steps` completed `shrink()` calls because the
+    next one failed to load a child (the recorded C12 finding): the entry is gone, the size is one
+    less, the height is whatever the completed steps left -/
+def deleteInterrupted (layer : Nat → Nat) (m : Tree) (k : Nat) (v : Nat) (steps : Nat) : Res Tree :=
+  match m.lookup layer k with
+  | none => .err "notpresent"
+  | some v' =>
+      if v' ≠ v then .err "valuemismatch"
+      else match del k (m.levels layer k) m.root with
+        | none => .err "notpresent"
+        | some r =>
+            .ok (shrinkLoop steps { m with root := r, rootP := false, dirty := true, size := m.size - 1 })
+
 def toList (m : Tree) : List (Nat × Nat) := m.root.toList
 
 end Tree
